@@ -4,7 +4,7 @@ set -u
 P=$(readlink -f "$1"); ID=$2; TIER=${3:-quick}
 WT=/var/tmp/seedwt-$ID-$$
 git -C /repo worktree add -q "$WT" HEAD || exit 2
-git -C "$WT" apply "$P" || { echo "patch does not apply"; git -C /repo worktree remove --force "$WT"; exit 2; }
+git -C "$WT" apply "$P" 2>/dev/null || git -C "$WT" apply --3way "$P" || { echo "patch does not apply"; git -C /repo worktree remove --force "$WT"; exit 2; }
 BK=/var/tmp/seedbk-$ID-$$; mkdir -p $BK/Gen
 cp /verif/evidence/$ID.json $BK/ 2>/dev/null; cp /verif/coq/Gen/${ID}*.v $BK/Gen/ 2>/dev/null
 S2T_REPO="$WT" /verif/check "$ID" --tier "$TIER" > /var/tmp/seed-$ID-$$.log 2>&1
